@@ -13,11 +13,12 @@ import (
 
 // LayoutOpts controls G-LAYOUT.
 type LayoutOpts struct {
-	Max         int  // maximum number of injections
-	NoLine      bool // only block comments (no "//" comments, no line breaks)
-	Special     bool // allow go/printer-sensitive comment texts (doc markup, directives)
-	NoBuildTags bool // never add a //go:build header
-	Tag         string
+	Max          int  // maximum number of injections
+	NoLine       bool // only block comments (no "//" comments, no line breaks)
+	Special      bool // allow go/printer-sensitive comment texts (doc markup, directives)
+	NoBuildTags  bool // never add a //go:build header
+	AvoidImports bool // never insert inside a parenthesised import declaration (go/format re-sorts those and moves comments itself)
+	Tag          string
 }
 
 // Inject is G-LAYOUT: it inserts comments, line breaks and blank lines at token gaps of a
@@ -53,12 +54,14 @@ type gap struct {
 
 // gaps lists candidate insertion offsets: the start of every token (weight 1, or 3 next to the
 // punctuation the decorator special-cases) and the end of every line.
-func gaps(src []byte) (tokStarts []int, lineEnds []int, weighted []int) {
+func gaps(src []byte, avoidImports bool) (tokStarts []int, lineEnds []int, weighted []int) {
 	fset := token.NewFileSet()
 	file := fset.AddFile("", -1, len(src))
 	var s scanner.Scanner
 	s.Init(file, src, func(token.Position, string) {}, scanner.ScanComments)
 	prevHot := false
+	var impFrom, impTo []int // byte ranges of parenthesised import declarations
+	prevTok, inImp := token.ILLEGAL, false
 	for {
 		pos, tok, lit := s.Scan()
 		if tok == token.EOF {
@@ -68,6 +71,19 @@ func gaps(src []byte) (tokStarts []int, lineEnds []int, weighted []int) {
 			continue
 		}
 		off := file.Offset(pos)
+		if tok != token.COMMENT {
+			if prevTok == token.IMPORT && tok == token.LPAREN {
+				inImp = true
+				impFrom = append(impFrom, off)
+			} else if inImp && tok == token.RPAREN {
+				inImp = false
+				impTo = append(impTo, off)
+			}
+			prevTok = tok
+		}
+		if avoidImports && (inImp || tok == token.RPAREN && len(impTo) > 0 && impTo[len(impTo)-1] == off) {
+			continue
+		}
 		tokStarts = append(tokStarts, off)
 		hot := false
 		switch tok {
@@ -116,6 +132,17 @@ func gaps(src []byte) (tokStarts []int, lineEnds []int, weighted []int) {
 			if len(bytes.TrimSpace(line)) == 0 || bytes.Contains(line, []byte("//")) {
 				continue
 			}
+			if avoidImports {
+				in := false
+				for k := range impTo {
+					if i >= impFrom[k] && i <= impTo[k] {
+						in = true
+					}
+				}
+				if in {
+					continue
+				}
+			}
 			lineEnds = append(lineEnds, i)
 		}
 	}
@@ -140,7 +167,7 @@ var specialTexts = []string{
 }
 
 func injectOne(t *rapid.T, src []byte, o LayoutOpts, i int) ([]byte, string) {
-	tokStarts, lineEnds, weighted := gaps(src)
+	tokStarts, lineEnds, weighted := gaps(src, o.AvoidImports)
 	if len(tokStarts) == 0 {
 		return nil, ""
 	}
